@@ -5179,9 +5179,9 @@ class Symbol:
                             # same as imply; if weakly set, it is written to .config even if not visible
                             self._write_to_conf = True
                             break
-                    # Otherwise, look at defaults
-                    # 4) Apply defaults if any
-                    if not val:
+                    else:
+                        # Otherwise (no active weakly-set value, which may well be the empty string), look at defaults
+                        # 4) Apply defaults if any
                         for sym, cond in self.defaults:
                             if expr_value(cond):
                                 val = sym.str_value
